@@ -80,11 +80,14 @@ T_Send ==
            adm == React(s0, f)
            quiet == Handle \in adm \/ Ignore \in adm
            outs == OutputsOf(c.r, f)
+           \* the reset that pushed the emitted-RST count over its cap was queued before the GOAWAY: it may still be flushed
+           comp == IF c.r = Goaway("EYC") THEN {Out("rst", f.sid, r.c) : r \in {x \in RfcAdm(s0, f) : x.k = "rst"}} ELSE {}
        IN /\ c.r \in adm \/ DevOf(s0, f) # {}             \* P_C15_React on the visited states (or a listed finding)
           /\ devs' = IF c.r \in adm THEN devs ELSE devs + 1
           /\ st' = c.s
           /\ pend' = pend \o SetToSeq({[x |-> o.x, sid |-> o.sid, c |-> o.c,
-                                        must |-> ~(quiet /\ o.x \in {"rst", "goaway"})] : o \in outs})
+                                        must |-> ~(quiet /\ o.x \in {"rst", "goaway"})] : o \in outs}
+                                      \cup {[x |-> o.x, sid |-> o.sid, c |-> o.c, must |-> FALSE] : o \in comp})
           /\ alts' = alts \cup UNION {OutputsOf(r, f) : r \in adm \ {c.r}}
   /\ Consume /\ UNCHANGED <<hist, div>>
 
